@@ -121,7 +121,8 @@ class SvsInst:
         # Compare state vectors
         rsv_dict = {}
         for rsv in remote_sv:
-            if not rsv.node_id:
+            if not rsv.node_id or rsv.seq_no is None:
+                # Malformed entry
                 continue
             rsv_id = enc.Name.to_bytes(rsv.node_id)
             rsv_seq = rsv.seq_no
